@@ -11,10 +11,10 @@
 (* payload = frame[start .. min(declared_end, len)], empty when the frame  *)
 (* ends at or before `start`.  The reply checkers (WFxxx) are strict.      *)
 (***************************************************************************)
-EXTENDS Integers, Sequences, FiniteSets
+EXTENDS Integers, Sequences, FiniteSets, SequencesExt
 
-Min(a, b) == IF a < b THEN a ELSE b
-Max(a, b) == IF a > b THEN a ELSE b
+MinOf(a, b) == IF a < b THEN a ELSE b
+MaxOf(a, b) == IF a > b THEN a ELSE b
 
 U8(b, o)  == b[o + 1]
 U16(b, o) == b[o + 1] * 256 + b[o + 2]
@@ -32,11 +32,7 @@ Sub1_32(p) == IF p[2] > 0 THEN << p[1], p[2] - 1 >>
 U32FromBytesLE(b, o) == << b[o + 4] * 256 + b[o + 3], b[o + 2] * 256 + b[o + 1] >>
 
 (* Region equality between two frames: a[sa .. sa+n) = b[sb .. sb+n) *)
-RECURSIVE EqRegion(_, _, _, _, _)
-EqRegion(a, sa, b, sb, n) ==
-    IF n <= 0 THEN TRUE
-    ELSE IF a[sa + 1] # b[sb + 1] THEN FALSE
-    ELSE EqRegion(a, sa + 1, b, sb + 1, n - 1)
+EqRegion(a, sa, b, sb, n) == \A k \in 1..n : a[sa + k] = b[sb + k]
 
 (* does frame b carry the literal sequence lit at offset o ? *)
 HasAt(b, o, lit) == /\ o + Len(lit) <= Len(b)
@@ -49,11 +45,14 @@ HasAt(b, o, lit) == /\ o + Len(lit) <= Len(b)
 (***************************************************************************)
 Fold16(x) == (x % 65536) + (x \div 65536)
 
-RECURSIVE SumWords(_, _, _, _)
-SumWords(b, s, e, acc) ==
-    IF s >= e THEN acc
-    ELSE IF s + 1 = e THEN Fold16(acc + b[s + 1] * 256)
-    ELSE SumWords(b, s + 2, e, Fold16(acc + b[s + 1] * 256 + b[s + 2]))
+(* (a left fold over the word indices: TLC evaluates it iteratively, so    *)
+(* the cost stays linear in the length of the region)                      *)
+SumWords(b, s, e, acc0) ==
+    IF e <= s THEN acc0
+    ELSE LET nw == (e - s) \div 2
+             body == FoldLeft(LAMBDA acc, k : Fold16(acc + b[s + 2 * k - 1] * 256 + b[s + 2 * k]),
+                              acc0, [ k \in 1..nw |-> k ])
+         IN IF (e - s) % 2 = 1 THEN Fold16(body + b[e] * 256) ELSE body
 
 (* sum of the words of a byte sequence (used for addresses) *)
 SumSeq16(q) == SumWords(q, 0, Len(q), 0)
@@ -102,10 +101,10 @@ Ip4Ttl(b)     == U8(b, 22)
 Ip4Proto(b)   == U8(b, 23)
 Ip4Src(b)     == Bytes(b, 26, 30)
 Ip4Dst(b)     == Bytes(b, 30, 34)
-Ip4PayStart(b) == 14 + 20 + Max(Ip4Ihl(b) * 4 - 20, 0)
+Ip4PayStart(b) == 14 + 20 + MaxOf(Ip4Ihl(b) * 4 - 20, 0)
 Ip4PayEnd(b)  ==
     IF Len(b) <= Ip4PayStart(b) THEN Ip4PayStart(b)
-    ELSE Min(Ip4PayStart(b) + Max(Ip4TotLen(b) - Ip4Ihl(b) * 4, 0), Len(b))
+    ELSE MinOf(Ip4PayStart(b) + MaxOf(Ip4TotLen(b) - Ip4Ihl(b) * 4, 0), Len(b))
 
 (* IPv6 at offset 14 *)
 Ip6OK(b)      == Len(b) >= 14 + 40
@@ -116,7 +115,7 @@ Ip6Hlim(b)    == U8(b, 21)
 Ip6Src(b)     == Bytes(b, 22, 38)
 Ip6Dst(b)     == Bytes(b, 38, 54)
 Ip6PayStart(b) == 54
-Ip6PayEnd(b)  == IF Len(b) <= 54 THEN 54 ELSE Min(54 + Ip6PLen(b), Len(b))
+Ip6PayEnd(b)  == IF Len(b) <= 54 THEN 54 ELSE MinOf(54 + Ip6PLen(b), Len(b))
 
 PROTO_ICMP   == 1
 PROTO_TCP    == 6
